@@ -115,9 +115,11 @@ fn caps_canon(c: &Captures) -> String {
     s
 }
 
-fn real_captures_iter(re: &Regex, text: &str) -> (Vec<It>, Vec<String>, bool) {
+type Groups = Vec<Option<(usize, usize)>>;
+
+fn real_captures_iter(re: &Regex, text: &str) -> (Vec<It>, Vec<Groups>, bool) {
     let mut out = Vec::new();
-    let mut full = Vec::new();
+    let mut full: Vec<Groups> = Vec::new();
     let cap = text.len() + 4;
     let mut it = re.captures_iter(text);
     loop {
@@ -129,11 +131,11 @@ fn real_captures_iter(re: &Regex, text: &str) -> (Vec<It>, Vec<String>, bool) {
                     Some(m) => out.push(It::M(m.start(), m.end())),
                     None => out.push(It::E("group 0 missing".to_string())),
                 }
-                full.push(caps_canon(&c));
+                full.push((0..c.len()).map(|i| c.get(i).map(|m| (m.start(), m.end()))).collect());
             }
             Some(Err(e)) => {
                 out.push(It::E(err_name(&e)));
-                full.push(std::format!("E:{}", err_name(&e)));
+                full.push(Vec::new());
             }
         }
         if out.len() > cap {
@@ -198,6 +200,9 @@ pub struct FindIterBody<'a> {
 }
 
 impl<'a> Body for FindIterBody<'a> {
+    fn panic_op(&self) -> &'static str {
+        "entry_points"
+    }
     fn positions(&self, _widths: &[usize]) -> Vec<usize> {
         vec![0]
     }
@@ -320,6 +325,9 @@ pub struct CoherenceBody<'a> {
 }
 
 impl<'a> Body for CoherenceBody<'a> {
+    fn panic_op(&self) -> &'static str {
+        "coherence"
+    }
     fn run<T: Text + ?Sized>(&self, t: &T, pos: usize) -> Obs {
         let mut o = Obs::default();
         let re = &self.b.regex;
@@ -438,6 +446,9 @@ fn collect_pieces<'h, I: Iterator<Item = crate::Result<&'h str>>>(target: &'h st
 }
 
 impl<'a> Body for SplitBody<'a> {
+    fn panic_op(&self) -> &'static str {
+        "entry_points"
+    }
     fn positions(&self, _widths: &[usize]) -> Vec<usize> {
         vec![0]
     }
@@ -552,16 +563,19 @@ fn hex(s: &str) -> String {
 }
 
 impl<'a> Body for ReplaceBody<'a> {
+    fn panic_op(&self) -> &'static str {
+        "entry_points"
+    }
     fn positions(&self, _widths: &[usize]) -> Vec<usize> {
         vec![0]
     }
     fn run<T: Text + ?Sized>(&self, t: &T, _pos: usize) -> Obs {
         let mut o = Obs::default();
         let re = &self.b.regex;
-        let ops = ["replacen_noexpand", "replacen_str", "replacen_closure", "replacen_dollar0"];
+        let ops = ["replacen_noexpand", "replacen_str", "replacen_closure", "replacen_dollar0", "replacen_dollardollar", "replacen_group1", "replacen_braced"];
         let res = with_text(self.b, t, |s| {
             let (fi, _) = real_find_iter(re, s);
-            let (ci, _, _) = real_captures_iter(re, s);
+            let (ci, groups, _) = real_captures_iter(re, s);
             let mut outs: Vec<(usize, usize, Result<(bool, String), String>, String)> = Vec::new();
             for n in 0..=3usize {
                 for (k, _) in ops.iter().enumerate() {
@@ -569,7 +583,10 @@ impl<'a> Body for ReplaceBody<'a> {
                         0 => re.try_replacen(s, n, NoExpand("x")),
                         1 => re.try_replacen(s, n, "x"),
                         2 => re.try_replacen(s, n, |_: &Captures| "x".to_string()),
-                        _ => re.try_replacen(s, n, "<$0>"),
+                        3 => re.try_replacen(s, n, "<$0>"),
+                        4 => re.try_replacen(s, n, "$$"),
+                        5 => re.try_replacen(s, n, "[$1]"),
+                        _ => re.try_replacen(s, n, "${1}a$$"),
                     };
                     let r2 = match r {
                         Ok(c) => Ok((matches!(c, std::borrow::Cow::Borrowed(_)), c.to_string())),
@@ -577,12 +594,19 @@ impl<'a> Body for ReplaceBody<'a> {
                     };
                     // model from the matches the same path yields: fast path (k == 0, 1) follows
                     // find_iter, the slow path captures_iter
+                    // (a template with `$` and a closure take the captures path)
                     let src = if k <= 1 { &fi } else { &ci };
                     let mut m = String::new();
                     let mut last = 0usize;
                     let mut err = None;
                     let mut cnt = 0usize;
-                    for x in src.iter() {
+                    let group1 = |idx: usize| -> &str {
+                        match groups.get(idx).and_then(|g| g.get(1)).cloned().flatten() {
+                            Some((a, z)) => &s[a..z],
+                            None => "",
+                        }
+                    };
+                    for (idx, x) in src.iter().enumerate() {
                         match x {
                             It::E(e) => {
                                 err = Some(e.clone());
@@ -593,12 +617,25 @@ impl<'a> Body for ReplaceBody<'a> {
                                     break;
                                 }
                                 m.push_str(&s[last..*a]);
-                                if k == 3 {
-                                    m.push('<');
-                                    m.push_str(&s[*a..*z]);
-                                    m.push('>');
-                                } else {
-                                    m.push('x');
+                                match k {
+                                    3 => {
+                                        m.push('<');
+                                        m.push_str(&s[*a..*z]);
+                                        m.push('>');
+                                    }
+                                    // `$$` is a literal `$`
+                                    4 => m.push('$'),
+                                    // `$1` / `${1}`: the group's text, or nothing if absent
+                                    5 => {
+                                        m.push('[');
+                                        m.push_str(group1(idx));
+                                        m.push(']');
+                                    }
+                                    6 => {
+                                        m.push_str(group1(idx));
+                                        m.push_str("a$");
+                                    }
+                                    _ => m.push('x'),
                                 }
                                 last = *z;
                                 cnt += 1;
@@ -687,6 +724,99 @@ impl<'a> Body for ReplaceBody<'a> {
 }
 
 // ---------------------------------------------------------------------------
+// C05 (API level): every entry point returns normally and reports valid offsets
+
+pub struct EntryPointsBody<'a> {
+    pub b: &'a Built,
+}
+
+impl<'a> Body for EntryPointsBody<'a> {
+    fn panic_op(&self) -> &'static str {
+        "entry_points"
+    }
+    fn positions(&self, _widths: &[usize]) -> Vec<usize> {
+        vec![0]
+    }
+    fn run<T: Text + ?Sized>(&self, t: &T, _pos: usize) -> Obs {
+        let mut o = Obs::default();
+        let re = &self.b.regex;
+        let (fi, groups, sp, spn, r1, r2) = with_text(self.b, t, |s| {
+            let (fi, _) = real_find_iter(re, s);
+            let (_, groups, _) = real_captures_iter(re, s);
+            let sp = collect_pieces(s, re.split(s), s.len() + 6).0;
+            let spn = collect_pieces(s, re.splitn(s, 2), s.len() + 6).0;
+            let r1 = re.try_replacen(s, 0, NoExpand("x")).map(|c| c.len()).map_err(|e| err_name(&e));
+            let r2 = re.try_replacen(s, 0, "[$1]").map(|c| c.len()).map_err(|e| err_name(&e));
+            // the Index impls
+            if let Ok(Some(c)) = re.captures(s) {
+                let _ = &c[0];
+            }
+            (fi, groups, sp, spn, r1, r2)
+        });
+        o.matched = !fi.is_empty();
+        o.items.push(std::format!("find_iter={}", canon_seq(&fi)));
+        o.items.push(std::format!("captures_iter={:?}", groups));
+        o.items.push(std::format!("split={}", canon_seq(&sp)));
+        o.items.push(std::format!("splitn2={}", canon_seq(&spn)));
+        o.items.push(std::format!("replace={:?}/{:?}", r1, r2));
+        let valid = |s: usize, e: usize| s <= e && e <= t.len() && crate::props::is_boundary(t, s) && crate::props::is_boundary(t, e);
+        let mut bad: Option<(String, String, String)> = None;
+        for x in fi.iter() {
+            if let It::M(s, e) = x {
+                if !valid(*s, *e) {
+                    bad = Some((std::format!("find_iter reports the invalid span ({},{})", s, e), "find_iter".to_string(), canon_seq(&fi)));
+                }
+            }
+        }
+        for g in groups.iter() {
+            for x in g.iter() {
+                if let Some((s, e)) = x {
+                    if !valid(*s, *e) && bad.is_none() {
+                        let mut seq = String::new();
+                        for gg in groups.iter() {
+                            seq.push('M');
+                            for y in gg.iter() {
+                                match y {
+                                    None => seq.push_str("[-]"),
+                                    Some((a, z)) => seq.push_str(&std::format!("[{},{}]", a, z)),
+                                }
+                            }
+                            seq.push(';');
+                        }
+                        bad = Some((std::format!("captures_iter reports the invalid span ({},{})", s, e), "captures_iter".to_string(), seq));
+                    }
+                }
+            }
+        }
+        for x in sp.iter().chain(spn.iter()) {
+            if let It::M(s, e) = x {
+                if !valid(*s, *e) && bad.is_none() {
+                    bad = Some((std::format!("split reports the invalid piece ({},{})", s, e), "split".to_string(), canon_seq(&sp)));
+                }
+            }
+        }
+        if let Some((what, op, observed)) = bad {
+            o.fail = Some(Fail {
+                what,
+                op,
+                pattern: self.b.src.clone(),
+                casei: false,
+                limit: None,
+                arg: 0,
+                observed,
+                expected: "start <= end <= len on character boundaries".to_string(),
+            });
+        }
+        o
+    }
+}
+
+pub fn drive_entry_points(cfg: &RunCfg, b: &Built, classes: &[Cls], rep: &mut PatReport) {
+    let body = EntryPointsBody { b };
+    drive(&cfg.prop, &body, classes, cfg.n, cfg, rep);
+}
+
+// ---------------------------------------------------------------------------
 // C16: group metadata
 
 pub struct MetaBody<'a> {
@@ -733,6 +863,9 @@ pub fn meta_canon(re: &Regex, names: &[(String, usize)], s: &str, pos: usize) ->
 }
 
 impl<'a> Body for MetaBody<'a> {
+    fn panic_op(&self) -> &'static str {
+        "captures_meta"
+    }
     fn run<T: Text + ?Sized>(&self, t: &T, pos: usize) -> Obs {
         let mut o = Obs::default();
         let s = with_text(self.b, t, |s| meta_canon(&self.b.regex, &self.names, s, pos));
